@@ -24,6 +24,9 @@ def check(run):
     ec.run_family(run, 'C04-three-keys', 'Q_C04k3', 'R_w3', recsB='R_w3', maxA=1 if quick else 2, maxB=2)
     if not quick:
         ec.run_family(run, 'C04-cross-product', 'Q_MIX', 'R_2x2', recsB='R_w2', maxA=3, maxB=4, hdrmodes=(False, True), simulate=8000)
+    # rbql-js/rbql.js is an anchor of this property too
+    ec.run_family_js(run, 'C04-js-join', 'Q_C04selQ', 'R_q4', recsB='R_q4', maxA=2, maxB=2)
+    ec.run_family_js(run, 'C04-js-join-pairs', 'Q_C04pairs', 'R_2x2', recsB='R_2x2', maxA=1, maxB=2, hdrmodes=(False, True))
     # random cross product of every query kind x join x fault plan over ragged tables (tlc -simulate, seeded by VERIF_SEED)
     ec.run_family(run, 'C04-random-cross-product', 'Q_MIX', 'R_w2', recsB='R_w2', maxA=3, maxB=2, hdrmodes=(False, True), breakpoints=(0, 0, 0, 1, 2), simulate=1200 if quick else 20000, opts={'sim_next': 'SimNext2'})
     run.exhaustive = True
